@@ -333,6 +333,7 @@ def to_method(lines) -> Mdl.Method:
 class EngineHarness:
     def __init__(self, lines=None, *, t0: float = T0, interval: float = 0.1, hw_init: dict | None = None,
                  wrap_hw=None, enable_archiver: bool = False):
+        _uuid_counter[0] = 0     # ids (run id, instance ids) are a function of the case only: the engine iterates sets of them
         VT.now = t0
         self.t0 = t0
         self.interval = interval
